@@ -45,9 +45,12 @@ CLAIMED["C01"] = dict(
     "line-by-line model of Aligner.locate); the reported number of errors is ACHIEVED by an alignment of the two reported intervals under the configured wildcard rules and indel cost "
     "(C01_locate_errors_achieved for all 16 flag sets, C01_errors_achieved for all classes incl. the one aligning reversed strings; a second invariant on every DP cell within the error "
     "budget, cells left stale by the Ukkonen cut-off shown irrelevant; C01_threshold_tables discharges the hypothesis on thresholds for every non-negative non-decreasing table): hence "
-    "true edit distance <= reported errors <= tolerance, the occurrence is genuine; for the comparers (anchored, no indels) the error count is exactly the Hamming distance (C01_comparer_exact). "
-    "PARTIAL in one respect: that no cheaper alignment of the reported intervals exists (optimality of the banded DP, i.e. errors <= true distance) is not a theorem; it is covered by the "
-    "correspondence (model = Aligner.locate / match_to on all 16 flag sets and 8 classes) plus the textbook-distance oracle run on the implementation.",
+    "true edit distance <= reported errors <= tolerance, the occurrence is genuine; for the comparers (anchored, no indels) the error count is exactly the Hamming distance (C01_comparer_exact); "
+    "for every class whose aligner may stop anywhere in the read (all except the anchored and the non-internal 3' adapters), indels enabled, the reported errors are EXACTLY the edit distance "
+    "of the two reported intervals -- achieved, and no alignment of them is cheaper (C01_errors_exact, C01_locate_errors_minimal: lower-bound invariant on every DP cell over all admissible "
+    "starts, diagonal monotonicity of the edit distance for the Ukkonen cut-off). PARTIAL in one respect: the lower bound (errors <= true distance) for SuffixAdapter with indels, "
+    "NonInternalBackAdapter and for indels disabled on the DP classes is not a theorem; it is covered by the correspondence (model = Aligner.locate / match_to on all 16 flag sets and 8 "
+    "classes) plus the textbook-distance oracle run on the implementation.",
     technique="Coq proof (two invariants over the column fold of a line-by-line model of Aligner.locate; inductive edit-script relation closed under reversal) + translators (tables, flags, scores) + extracted-model differential correspondence; oracle search",
     design="6/C01",
     note=TB + " The float comparison cost <= L*rate is modelled as cost <= thr[L] with thr[L] = int(L*rate) computed in CPython by the code's own expression; the harness asserts every table it generates is non-negative and non-decreasing.",
